@@ -136,8 +136,9 @@ def burrow_ite[T: Base](expr: T) -> T:
     Returns an equivalent AST that "burrows" the ITE expressions as deep as
     possible into the ast, for simpler printing.
     """
-    if expr.hash() in burrowed_cache and burrowed_cache[expr.hash()] is not None:
-        return cast("T", burrowed_cache[expr.hash()])
+    cached = burrowed_cache.get(expr.hash(), None)
+    if cached is not None:
+        return cast("T", cached)
 
     burrowed = _burrow_ite(expr)
     burrowed_cache[burrowed.hash()] = burrowed
@@ -150,8 +151,9 @@ def excavate_ite[T: Base](expr: T) -> T:
     Returns an equivalent AST that "excavates" the ITE expressions out as far as
     possible toward the root of the AST, for processing in static analyses.
     """
-    if expr.hash() in excavated_cache and excavated_cache[expr.hash()] is not None:
-        return cast("T", excavated_cache[expr.hash()])
+    cached = excavated_cache.get(expr.hash(), None)
+    if cached is not None:
+        return cast("T", cached)
 
     excavated = _excavate_ite(expr)
     excavated_cache[excavated.hash()] = excavated
